@@ -28,7 +28,7 @@ let err_name (c : coq_N) = match int_of_n c with
   | 19 -> "object-syntax" | 20 -> "object-end" | 21 -> "stream-eol" | 22 -> "length"
   | 23 -> "endstream" | 24 -> "objstm-entry" | 25 -> "objstm-dict" | 26 -> "objstm-pairs"
   | 27 -> "objstm-order" | 28 -> "objstm-index" | 29 -> "objstm-object" | 30 -> "objstm-stream"
-  | 31 -> "root" | 32 -> "after-xref" | 33 -> "objstm-first" | 34 -> "boundary"
+  | 31 -> "root" | 32 -> "after-xref" | 33 -> "objstm-first" | 34 -> "boundary" | 35 -> "filter-decodeparms"
   | n -> "code" ^ string_of_int n
 
 let hexs l = match l with [] -> "-" | _ -> hex_of_bytes l
@@ -138,8 +138,9 @@ let parse_pobj ts = match ts with
   | _ -> raise (Bad "pobj")
 
 let enc_table : (string * string, coq_N list) Hashtbl.t = Hashtbl.create 64
-let fenc_table name _ data =
-  match Hashtbl.find_opt enc_table (hex_of_bytes name, hex_of_bytes data) with
+let fkey name parms = hex_of_bytes name ^ " " ^ show false (ODict parms)
+let fenc_table name parms data =
+  match Hashtbl.find_opt enc_table (fkey name parms, hex_of_bytes data) with
   | Some o -> o
   | None -> Stored.fenc_concrete name [] data
 
@@ -182,7 +183,11 @@ let rec parse_ops n ts acc =
           | "E" :: k :: r4 ->
             let rec encs k ts = if k = 0 then ts else
                 match ts with
-                | name :: i :: o :: ts' -> Hashtbl.replace enc_table (name, i) (bytes_of_hex o); encs (k - 1) ts'
+                | name :: ts0 ->
+                  let (p, ts1) = parse_dict ts0 in
+                  (match ts1 with
+                   | i :: o :: ts' -> Hashtbl.replace enc_table (fkey (bytes_of_hex name) p, i) (bytes_of_hex o); encs (k - 1) ts'
+                   | _ -> raise (Bad "E"))
                 | _ -> raise (Bad "E") in
             let r5 = encs (int_of_string k) r4 in
             parse_ops (n - 1) r5 (OpenStream (n_of_string a, n_of_string b, d, fl) :: acc)
